@@ -60,6 +60,13 @@ def instances(tier, seed):
     out.append({'id': 'qtz_disable_sampling', 'what': 'disable'})
     out.append({'id': 'qtz_update_sequence', 'what': 'updates', 'deep': tier != 'quick'})
     out.append({'id': 'mps_model', 'what': 'model'})
+    # summary() / export() asked BEFORE any forward pass at the current coefficients, per-layer and per-channel weight search, and coefficients
+    # written into a model that has already been evaluated (the sampled buffers are stale until the next forward pass)
+    for wt in ('layer', 'channel'):
+        for order, hist in (('summary_first', None), ('summary_first', 'data'), ('fwd_first', 'data')):
+            if wt == 'layer' and order == 'fwd_first':
+                continue
+            out.append({'id': f'mps_model:{wt}:{order}' + (f':after_eval+{hist}' if hist else ''), 'what': 'model', 'wtype': wt, 'order': order, 'hist': hist})
     for hard, gumbel in ((True, False), (False, False), (True, True)) if tier == 'quick' else itertools.product([False, True], [False, True]):
         for wt in ('layer', 'channel'):
             out.append({'id': f'mps_model_options:{wt}:hard={int(hard)}:gs={int(gumbel)}', 'what': 'model_opts', 'hard': hard, 'gumbel': gumbel, 'wtype': wt})
@@ -462,12 +469,12 @@ class _Net(nn.Module):
         return self.fc(torch.relu(self.c0(x)).flatten(1))
 
 
-def _mk_model(wtype='layer'):
+def _mk_model(wtype='layer', wprec=(2, 4, 8)):
     from plinio.methods import MPS
     from plinio.methods.mps import get_default_qinfo, MPSType
     torch.manual_seed(0)
     net = _Net()
-    m = MPS(net, input_shape=(1, 3, 3), qinfo=get_default_qinfo((2, 4, 8), (4, 8)),
+    m = MPS(net, input_shape=(1, 3, 3), qinfo=get_default_qinfo(tuple(wprec), (4, 8)),
             w_search_type=MPSType.PER_LAYER if wtype == 'layer' else MPSType.PER_CHANNEL)
     return m.eval()
 
@@ -495,17 +502,73 @@ def _exported_precisions(e):
     return out
 
 
-def _model_observe(m, x):
+def _model_observe(m, x, order='fwd_first'):
     """evaluated (theta one-hot index), reported (summary) and exported precisions"""
+    if order == 'summary_first':
+        summ0 = {k: dict(v) for k, v in m.summary().items()}
+        exp0 = _exported_precisions(m.export())
     m(x)
     ev = {}
     for name, q in _qtzs(m):
         th = q.theta_alpha
         idx = [int(i) for i in torch.argmax(th, dim=0).reshape(-1)] if th.dim() > 1 else [int(torch.argmax(th))]
         ev[name] = [int(q.precision[i]) for i in idx]
+    if order == 'summary_first':
+        return ev, summ0, exp0
     summ = m.summary()
     e = m.export()
     return ev, {k: dict(v) for k, v in summ.items()}, _exported_precisions(e)
+
+
+_ROLE = {'out_mps_quantizer': 'out_precision', 'w_mps_quantizer': 'w_precision', 'in_mps_quantizer': 'in_precision'}
+
+
+def _reported(qname, summ):
+    """what summary() says about the decision taken by quantizer `qname` (None if it does not say)"""
+    parts = qname.split('.')
+    lname = '.'.join(parts[:-1])
+    lname = lname[5:] if lname.startswith('seed.') else lname
+    sk = _ROLE.get(parts[-1])
+    s = summ.get(lname)
+    if sk is None or s is None or sk not in s:
+        return None
+    return s[sk]
+
+
+def _not_argmax(sy, qs, summ):
+    """formula: some decision reported by summary() is not the strict arg-max of the raw coefficients (independent of the sampling code)"""
+    bad = []
+    byname = dict(qs)
+    for qname, a in sy.items():
+        rep = _reported(qname, summ)
+        if rep is None:
+            continue
+        precs = [int(v) for v in byname[qname].precision]
+        A = st.to_arr(a).reshape(len(precs), -1)
+        reps = list(rep) if isinstance(rep, (list, tuple)) else [rep] * A.shape[1]
+        if len(reps) != A.shape[1]:
+            return True
+        for c, pr in enumerate(reps):
+            if int(pr) not in precs:
+                return True
+            i = precs.index(int(pr))
+            bad += [st.e_ge(A[j, c], A[i, c]) for j in range(len(precs)) if j != i]
+    return _or(bad)
+
+
+def _not_argmax_concrete(alphas, qs, summ):
+    byname = dict(qs)
+    for qname, vals in alphas.items():
+        rep = _reported(qname, summ)
+        if rep is None:
+            continue
+        precs = [int(v) for v in byname[qname].precision]
+        A = np.array([float(Fraction(v)) for v in vals]).reshape(len(precs), -1)
+        reps = list(rep) if isinstance(rep, (list, tuple)) else [rep] * A.shape[1]
+        want = [precs[int(i)] for i in A.argmax(axis=0)]
+        if [int(v) for v in reps] != want:
+            return f'summary() reports {reps} for {qname} but the arg-max of the raw coefficients is {want}'
+    return None
 
 
 def _consistent(ev, summ, exp):
@@ -525,19 +588,32 @@ def _consistent(ev, summ, exp):
 
 
 def _replay_model(rec):
-    m = _mk_model()
+    m = _mk_model(rec.get('wtype', 'layer'), rec.get('wprec', (2, 4, 8)))
     byname = dict(_qtzs(m))
+    if rec.get('hist'):
+        with torch.no_grad():
+            m(torch.zeros(1, 1, 3, 3))
     with torch.no_grad():
         for name, vals in rec['alphas'].items():
-            byname[name].alpha.copy_(torch.tensor([float(Fraction(v)) for v in vals]).reshape(byname[name].alpha.shape))
-    ev, summ, exp = _model_observe(m, torch.rand(1, 1, 3, 3))
-    bad = _consistent(ev, summ, exp)
+            t = torch.tensor([float(Fraction(v)) for v in vals]).reshape(byname[name].alpha.shape)
+            if rec.get('hist') == 'data':
+                byname[name].alpha.data.copy_(t)
+            else:
+                byname[name].alpha.copy_(t)
+    ev, summ, exp = _model_observe(m, torch.rand(1, 1, 3, 3), rec.get('order', 'fwd_first'))
+    bad = _consistent(ev, summ, exp) or _not_argmax_concrete(rec['alphas'], _qtzs(m), summ)
     return bad is not None, f'{bad}; evaluated={ev} summary={summ} exported={exp}'
 
 
 def _run_model(res, p, selftest):
-    m = _mk_model()
+    wtype, order, hist = p.get('wtype', 'layer'), p.get('order', 'fwd_first'), p.get('hist')
+    wprec = (2, 4, 8) if wtype == 'layer' else (2, 8)
+    m = _mk_model(wtype, wprec)
     qs = _qtzs(m)
+
+    def prefix():
+        with torch.no_grad():
+            m(torch.zeros(1, 1, 3, 3))
 
     def fn(ex):
         with SymMode():
@@ -547,26 +623,39 @@ def _run_model(res, p, selftest):
                 _assume_gaps(ex, st.to_arr(a))
                 pairs.append((q, 'alpha', a))
                 sy[name] = a
-            with st.swapped_params(pairs):
-                saved = [(q, q.theta_alpha) for _, q in qs]
-                try:
-                    ev, summ, exp = _model_observe(m, torch.zeros(1, 1, 3, 3))
-                finally:
-                    for q, th in saved:
-                        q.theta_alpha = th
+            saved = [(q, q.theta_alpha) for _, q in qs]
+            try:
+                with (st.written_params(pairs, prefix, hist) if hist else st.swapped_params(pairs)):
+                    ev, summ, exp = _model_observe(m, torch.zeros(1, 1, 3, 3), order)
+            finally:
+                for q, th in saved:
+                    q.theta_alpha = th
         return sy, ev, summ, exp
     ex = Explorer(timeout_ms=Q)
     k = 0
     for pc, (sy, ev, summ, exp) in ex.explore(fn):
         k += 1
         bad = _consistent(ev, summ, exp)
+        extra = []
+        if bad is None:
+            # the reported decision is the strict arg-max of the raw coefficients, for every value of the coefficients on this path
+            f = _not_argmax(sy, qs, summ)
+            if f is True:
+                bad = 'summary() reports a precision that is not among the candidates'
+            elif f is not False:
+                r, mcex = ex.check(f)
+                if r == 'unknown':
+                    res.inconclusive.append(f'mps_model path {k}: arg-max query unknown')
+                elif r == 'sat':
+                    bad = 'summary() reports a decision that is not the arg-max of the raw coefficients'
+                    extra = [f]
         if selftest and k == 1:
             bad = 'seeded'
         res.oblige(bad is None)
         allv = [v for a in sy.values() for v in a.elems()]
-        mm = _grid(ex, allv, [])
+        mm = _grid(ex, allv, extra)
         alphas = {n: [st.model_value(mm, v) for v in a.elems()] for n, a in sy.items()}
-        rec = {'what_kind': 'model', 'alphas': alphas}
+        rec = {'what_kind': 'model', 'alphas': alphas, 'wtype': wtype, 'wprec': list(wprec), 'order': order, 'hist': hist}
         if k <= 3:
             res.sample({'alphas': alphas, 'evaluated': ev, 'summary': summ, 'exported': exp})
         if bad is None:
@@ -577,7 +666,7 @@ def _run_model(res, p, selftest):
                 res.errors.append(f'concolic mismatch on MPS model: engine consistent, torch: {msg[:300]}')
         else:
             rec['observable'] = 'model'
-            rec['key'] = 'mps_model|evaluated-vs-summary-vs-exported'
+            rec['key'] = 'mps_model|evaluated-vs-summary-vs-exported' + ('' if (wtype, order, hist) == ('layer', 'fwd_first', None) else f'|{wtype}|{order}|{hist}')
             _viol(res, rec, f'MPS model: {bad}', selftest)
     res.witnesses += 1
     res.witnesses_ok += 1 if ex.n_paths > 1 else 0
